@@ -27,6 +27,18 @@
 //!    The outputs of a step are read off the tree after: the files of the output level whose id is
 //!    not the id of a file of that level that is no input (no positions are used; an output that
 //!    re-creates an input byte for byte has that input's id and is an output).
+//!  * the history model's steps as functions: at EVERY put / del / batch, every refused batch (a
+//!    batch naming a key twice, tried next to every batch of the history), every memtable rotation
+//!    and every flush one request `kvs hist <op> :: <state before> :: <state after>` carries the
+//!    memtable and the immutable memtable as version lists (`key@ts[!]`), `seq_no`,
+//!    `visible_seq_no` and level 0 as the version holds it; the Lean function `Blue.StoreHist.apply`
+//!    must produce the state after (memtables, both counters, level 0 in search order, and for a
+//!    flush the metadata and versions of the new file).  One pass of the flush loop body is the
+//!    model's `rollover` (up to the state the observer sees at `flush.rotated`) followed by the
+//!    model's `flush`.
+//!  * GC obligations on real steps: a performed compaction into the last level carries the
+//!    tombstone flags of its inputs; the model answers `newest=` (`newestKeptB`, the Boolean form of
+//!    `NewestKept`) and `sub=` (outputs ⊆ inputs); the implementation's line says `newest=1 sub=1`.
 use crate::common::*;
 
 fn tainted(v: Verdict, taint: &Option<String>) -> Verdict {
@@ -227,6 +239,7 @@ pub fn run_history(rec: &mut Recorder, seed: u64, hidx: u64, len: usize, nkeys: 
     let so = SelOpts { mof: 1 << 19, mcb: 1 << 29, mcf: cfg.max_compaction_files, mand_files: cfg.l0_mandatory_files, mand_bytes: 1 << 26 };
     let mut prev: Option<StateDump> = sim.dump().ok();
     sim.record_applied = true;
+    sim.record_hist = true;
     for (step, op) in ops.iter().enumerate() {
         let tag = format!("h{}s{}:{}", hidx, step, op.render());
         let ord0 = sim.edit_ordinal;
@@ -245,6 +258,31 @@ pub fn run_history(rec: &mut Recorder, seed: u64, hidx: u64, len: usize, nkeys: 
             Ok(r) => r,
             Err(p) => Err(format!("panic:{}", p)),
         };
+        // next to every batch: the same batch naming its first key twice must be refused and
+        // change nothing (the model's `write` with `batchOk = false`)
+        if let (Ok(()), Op::Batch(es)) = (&res, op) {
+            let mut dup = es.clone();
+            let extra = (es[0].0.clone(), if step % 2 == 0 { None } else { Some(b"dup".to_vec()) });
+            if step % 3 == 0 {
+                dup.insert(0, extra);
+            } else {
+                dup.push(extra);
+            }
+            let hb = sim.hist_before();
+            let mut wb = lsmtk::WriteBatch::with_capacity(dup.len());
+            for (k, v) in &dup {
+                match v {
+                    Some(v) => wb.put(k, v),
+                    None => wb.del(k),
+                }
+            }
+            let r = guarded(std::panic::AssertUnwindSafe(|| sim.kvs().write(wb).is_err()));
+            let verb = match r {
+                Ok(true) => "reject",
+                _ => "write",
+            };
+            sim.record_hist_step(format!("{} {}", verb, batch_keys(&dup)), hb);
+        }
         if let Err(e) = res {
             rec.count("op_errors");
             rec.case(&format!("# {}", tag), "#", Verdict::Fail { class: taint.clone().unwrap_or_else(|| "fault-free-op-error".to_string()), detail: format!("{} -> {}", tag, e) }, None);
@@ -380,6 +418,10 @@ pub fn run_history(rec: &mut Recorder, seed: u64, hidx: u64, len: usize, nkeys: 
             let readded = |f: &FileDump| events.get(&hex(&f.setsum)).map(|evs| evs.iter().any(|e| e.0 > ord0 && e.1 == '+')).unwrap_or(false);
             apply_case(rec, &a.before, a.compaction.as_ref(), &a.after, &taint, &tag, Some(&readded));
         }
+        // the history model's steps of this operation (writes, refused writes, rotations, flushes)
+        for hs in std::mem::take(&mut sim.hist) {
+            hist_case(rec, &hs, &taint, &tag);
+        }
         prev = Some(d);
     }
     rec.add("flushes", sim.flushes);
@@ -416,6 +458,7 @@ pub fn apply_case(rec: &mut Recorder, before: &[Vec<FileDump>], c: Option<&lsmtk
     let mut req;
     let mut fails: Vec<(String, String)> = vec![];
     let mut nontrivial = false;
+    let mut gc = false;
     let ids = |l: &[FileDump]| -> Vec<String> {
         let mut v: Vec<String> = l.iter().map(short_id).collect();
         v.sort();
@@ -473,6 +516,52 @@ pub fn apply_case(rec: &mut Recorder, before: &[Vec<FileDump>], c: Option<&lsmtk
                 req.push_str(&format!(" {}", apply_file(up, f)));
             }
             rec.count(if ins.len() == 1 { "apply.move" } else if up == lsmtk::NUM_LEVELS - 1 { "apply.gc" } else { "apply.merge" });
+            if ins.len() != 1 && up == lsmtk::NUM_LEVELS - 1 {
+                // ---- a garbage-collecting step: the tombstones among the inputs, and the two
+                // obligations of `GcCompactionOk` evaluated on the entries alone
+                gc = true;
+                let in_ents: Vec<&Ent> = before.iter().flat_map(|l| l.iter()).filter(|f| ins.contains(&short_id(f))).flat_map(|f| f.entries.iter()).collect();
+                let out_ents: Vec<&Ent> = outs.iter().flat_map(|f| f.entries.iter()).collect();
+                let tombs: Vec<String> = in_ents.iter().filter(|e| e.2.is_none()).map(|e| format!("{}@{}!", hex(&e.0), e.1)).collect();
+                req.push_str(&format!(" :: gc {}", if tombs.is_empty() { "-".to_string() } else { tombs.join(",") }));
+                let mut dropped_any = false;
+                let mut dropped_newest_tomb = false;
+                for o in &out_ents {
+                    if !in_ents.iter().any(|i| i.0 == o.0 && i.1 == o.1 && i.2 == o.2) {
+                        fails.push(("gc-output-is-no-input-version".into(), format!("output {}@{} of a collecting compaction is no input version", hex(&o.0), o.1)));
+                    }
+                }
+                if out_ents.len() < in_ents.len() {
+                    dropped_any = true;
+                }
+                let mut keys: Vec<&Vec<u8>> = in_ents.iter().map(|e| &e.0).collect();
+                keys.sort();
+                keys.dedup();
+                for k in keys {
+                    let newest_in = in_ents.iter().filter(|e| &e.0 == k).max_by_key(|e| e.1).unwrap();
+                    if out_ents.iter().any(|o| o.0 == newest_in.0 && o.1 == newest_in.1) {
+                        continue;
+                    }
+                    let newest_out = out_ents.iter().filter(|e| &e.0 == k).max_by_key(|e| e.1);
+                    if newest_in.2.is_some() {
+                        fails.push(("gc-dropped-current-value".into(), format!("the newest input version {}@{} is a value and no output", hex(k), newest_in.1)));
+                    } else if newest_out.map(|o| o.2.is_some()).unwrap_or(false) {
+                        fails.push(("gc-uncovered-older-value".into(), format!("the newest input version {}@{} is a dropped tombstone and the outputs of the key start with the value @{}", hex(k), newest_in.1, newest_out.unwrap().1)));
+                    } else {
+                        dropped_newest_tomb = true;
+                    }
+                }
+                if dropped_any {
+                    rec.count("apply.gc.dropped_versions");
+                    nontrivial = true;
+                }
+                if dropped_newest_tomb {
+                    rec.count("apply.gc.dropped_a_newest_tombstone");
+                }
+                if !tombs.is_empty() {
+                    rec.count("apply.gc.inputs_hold_tombstones");
+                }
+            }
             // ---- oracle: ids as multisets, level by level
             for i in 0..before.len().max(after.len()) {
                 let mut want: Vec<String> = before.get(i).map(|l| l.iter().map(short_id).collect()).unwrap_or_default();
@@ -567,7 +656,160 @@ pub fn apply_case(rec: &mut Recorder, before: &[Vec<FileDump>], c: Option<&lsmtk
         None => Verdict::Ok,
         Some((class, detail)) => Verdict::Fail { class, detail: format!("{} {}", tag, detail) },
     };
-    let obs = format!("{} chosen=1 outsok=1", render_tree_ids(after));
+    let obs = format!("{} chosen=1 outsok=1{}", render_tree_ids(after), if gc { " newest=1 sub=1" } else { "" });
+    let h = fnv(req.as_bytes());
+    rec.case(&req, &obs, tainted_fail(v, taint), if nontrivial { Some(h) } else { None });
+}
+
+// ===================================================== the history model's steps ================
+
+fn hist_ents(es: &[Ent]) -> String {
+    if es.is_empty() {
+        return "-".into();
+    }
+    es.iter().map(|(k, t, v)| format!("{}@{}{}", hex(k), t, if v.is_some() { "" } else { "!" })).collect::<Vec<_>>().join(",")
+}
+
+fn hist_file(f: &FileDump) -> String {
+    format!("L0:{}:{}:{}:{}:{}:{}", short_id(f), hex(&f.first_key), hex(&f.last_key), f.smallest_ts, f.biggest_ts, hist_ents(&f.entries))
+}
+
+fn hist_state_req(h: &HistState) -> String {
+    let mut s = format!("seq={} vis={} mem={} imm={}", h.seq, h.vis, hist_ents(&h.mem), match &h.imm {
+        Some(e) => hist_ents(e),
+        None => "none".into(),
+    });
+    for f in &h.l0 {
+        s.push_str(&format!(" {}", hist_file(f)));
+    }
+    s
+}
+
+/// level 0 in the order `Version::load` searches it: stable sort by newest timestamp, reversed
+fn l0_search_order(l0: &[FileDump]) -> Vec<String> {
+    let mut v: Vec<&FileDump> = l0.iter().collect();
+    v.sort_by_key(|f| f.biggest_ts);
+    v.into_iter().rev().map(short_id).collect()
+}
+
+fn sorted_versions(es: &[Ent]) -> bool {
+    es.windows(2).all(|w| w[0].0 < w[1].0 || (w[0].0 == w[1].0 && w[0].1 > w[1].1))
+}
+
+/// One step of the history model on the real store: `write` / `reject` / `rollover` / `flush`.
+pub fn hist_case(rec: &mut Recorder, hs: &HistStep, taint: &Option<String>, tag: &str) {
+    let (b, a) = (&hs.before, &hs.after);
+    let req = format!("kvs hist {} :: {} :: {}", hs.op, hist_state_req(b), hist_state_req(a));
+    let b_ids: Vec<String> = b.l0.iter().map(short_id).collect();
+    let new: Vec<&FileDump> = a.l0.iter().filter(|f| !b_ids.contains(&short_id(f))).collect();
+    let order = l0_search_order(&a.l0);
+    let mut obs = format!("seq={} vis={} mem={} imm={} l0={}", a.seq, a.vis, hist_ents(&a.mem), match &a.imm {
+        Some(e) => hist_ents(e),
+        None => "none".into(),
+    }, if order.is_empty() { "-".to_string() } else { order.join(",") });
+    let verb = hs.op.split(' ').next().unwrap_or("");
+    let mut fails: Vec<(String, String)> = vec![];
+    let mut nontrivial = false;
+    let same_l0 = |x: &HistState, y: &HistState| x.l0.iter().map(short_id).collect::<Vec<_>>() == y.l0.iter().map(short_id).collect::<Vec<_>>();
+    let max_ts = |h: &HistState| h.mem.iter().chain(h.imm.iter().flatten()).chain(h.l0.iter().flat_map(|f| f.entries.iter())).map(|e| e.1).max().unwrap_or(0);
+    rec.count(&format!("hist.{}", verb));
+    if !sorted_versions(&a.mem) || !a.imm.as_ref().map(|i| sorted_versions(i)).unwrap_or(true) {
+        fails.push(("hist-memtable-out-of-order".into(), "a memtable's cursor is not sorted by key ascending, timestamp descending".into()));
+    }
+    match verb {
+        "write" => {
+            let keys: Vec<(String, bool)> = hs.op[6..].split(',').map(|k| (k.trim_end_matches('!').to_string(), k.ends_with('!'))).collect();
+            // the property's words: every entry of the batch is in the memtable under one fresh
+            // timestamp newer than everything the store holds, readable at once; nothing else moved
+            if a.seq <= b.seq || a.seq <= max_ts(b) {
+                fails.push(("hist-write-timestamp-not-fresh".into(), format!("seq_no {} -> {}, newest version before @{}", b.seq, a.seq, max_ts(b))));
+            }
+            for (k, tomb) in &keys {
+                let hits: Vec<&Ent> = a.mem.iter().filter(|e| &hex(&e.0) == k && e.1 > b.seq).collect();
+                if hits.len() != 1 || hits[0].2.is_none() != *tomb || hits[0].1 > a.vis {
+                    fails.push(("hist-write-not-in-memtable".into(), format!("key {} of the batch: {} new versions in the memtable, visible_seq_no {}", k, hits.len(), a.vis)));
+                }
+            }
+            if a.mem.len() != b.mem.len() + keys.len() || !b.mem.iter().all(|e| a.mem.contains(e)) {
+                fails.push(("hist-write-lost-or-invented-version".into(), format!("memtable {} -> {} versions for a batch of {}", b.mem.len(), a.mem.len(), keys.len())));
+            }
+            if a.imm != b.imm || !same_l0(a, b) {
+                fails.push(("hist-write-moved-other-components".into(), "a write changed the immutable memtable or level 0".into()));
+            }
+            if keys.len() >= 2 {
+                rec.count("hist.write.batch");
+                nontrivial = true;
+            }
+            if keys.iter().any(|(k, _)| b.mem.iter().any(|e| &hex(&e.0) == k)) {
+                rec.count("hist.write.key_already_in_memtable");
+                nontrivial = true;
+            }
+            if b.imm.is_some() {
+                rec.count("hist.write.with_immutable_memtable");
+            }
+        }
+        "reject" => {
+            if a.seq != b.seq || a.vis != b.vis || a.mem != b.mem || a.imm != b.imm || !same_l0(a, b) {
+                fails.push(("hist-refused-write-changed-state".into(), format!("seq_no {} -> {}", b.seq, a.seq)));
+            }
+            nontrivial = true;
+        }
+        "rollover" => {
+            if b.imm.is_some() {
+                fails.push(("hist-rotation-over-immutable-memtable".into(), "the memtable was rotated while an immutable memtable was present".into()));
+            }
+            if a.imm.as_ref() != Some(&b.mem) || !a.mem.is_empty() {
+                fails.push(("hist-rotation-lost-or-invented-version".into(), format!("memtable of {} versions rotated: immutable memtable {:?}, new memtable {}", b.mem.len(), a.imm.as_ref().map(|i| i.len()), a.mem.len())));
+            }
+            if a.vis != b.vis || !same_l0(a, b) || a.seq < b.seq {
+                fails.push(("hist-rotation-moved-other-components".into(), format!("visible_seq_no {} -> {}", b.vis, a.vis)));
+            }
+            if b.mem.is_empty() {
+                rec.count("hist.rollover.empty_memtable");
+            }
+            if b.mem.len() >= 2 {
+                nontrivial = true;
+            }
+        }
+        "flush" => {
+            let imm = b.imm.clone().unwrap_or_default();
+            if b.imm.is_none() {
+                fails.push(("hist-flush-without-immutable-memtable".into(), "a flush ran with no immutable memtable".into()));
+            }
+            if new.len() != 1 {
+                if !(imm.is_empty() && new.is_empty()) {
+                    fails.push(("hist-flush-lost-or-invented-version".into(), format!("a flush added {} files to level 0", new.len())));
+                }
+            } else {
+                let f = new[0];
+                if f.entries != imm {
+                    fails.push(("hist-flush-lost-or-invented-version".into(), format!("the new file holds {} versions, the immutable memtable {}", f.entries.len(), imm.len())));
+                }
+                if order.first() != Some(&short_id(f)) {
+                    fails.push(("hist-flushed-file-not-searched-first".into(), format!("level 0 is searched {:?}, the new file is {}", order, short_id(f))));
+                }
+                obs.push_str(&format!(" file={}:{}:{}:{}", hex(&f.first_key), hex(&f.last_key), f.biggest_ts, hist_ents(&f.entries)));
+            }
+            if a.imm.is_some() || a.mem != b.mem || a.seq != b.seq || a.vis != b.vis {
+                fails.push(("hist-flush-moved-other-components".into(), format!("seq_no {} -> {}, immutable memtable present after: {}", b.seq, a.seq, a.imm.is_some())));
+            }
+            if imm.is_empty() {
+                rec.count("hist.flush.empty_immutable_memtable");
+            }
+            if !b.l0.is_empty() {
+                rec.count("hist.flush.level0_not_empty");
+                nontrivial = true;
+            }
+        }
+        _ => fails.push(("hist-unknown-op".into(), hs.op.clone())),
+    }
+    if nontrivial {
+        rec.count("hist.nontrivial");
+    }
+    let v = match fails.into_iter().next() {
+        None => Verdict::Ok,
+        Some((class, detail)) => Verdict::Fail { class, detail: format!("{} {} {}", tag, hs.op, detail) },
+    };
     let h = fnv(req.as_bytes());
     rec.case(&req, &obs, tainted_fail(v, taint), if nontrivial { Some(h) } else { None });
 }
@@ -1133,7 +1375,7 @@ pub fn run(args: &Args) {
         run_sel_history(&mut rec, args.seed, h, shlen);
     }
     rec.finish(
-        "seeded store histories (put/del/batch/flush/compaction steps/reopen; keys from a 4-12 key adversarial alphabet, ~30% tombstones, options grid memtable x file size x block size x L0 thresholds x max compaction files x gc versions x manifest rollover ratio) on the real KeyValueStore, flush and compaction loops single-stepped; after every op: reads of every key vs. sequential map and vs. the Lean model on the dumped state, invariants I1/I2 on the dumped state, closedness of each chosen compaction; the selector as a function (Lean nextCompaction vs Version::next_compaction: levels, key range, input ids in order) at every compaction step and, as is_some, on every state; selhist: selector-centred histories (options grid stall/mandatory thresholds x max_compaction_files at/below/above the stall threshold x max_compaction_bytes x max_open_files x memtable x file size) with the selection compared at every compaction step, again with one compaction in flight (asked inside the running compaction, the nested choice performed) and reads checked against a sequential map; f64: the level-curve / level-factor tables and seeded (level, score) pairs of ceil(score as f64 * level_factor) as i64; tree steps: at every performed compaction step and every flush of both kinds of history (the nested compaction of selhist and the step it is nested in included) the Lean functions applyCompaction / applyTrivialMove / ingest on the tree before (per level in the order the version holds the files), the compaction the real selector returned and the outputs read off the real tree after vs the real tree after, level by level, file by file, in the version's order, with the Boolean forms of Chosen and OutsOk evaluated on the step; oracle on the ids alone: after = before - inputs + outputs level by level as multisets, an output carrying an input's id was added by the step's manifest edit (store histories), every level >= 1 after sorted by key with at most touching ranges; non-trivial = a read step at which some key has versions in >= 2 components, or a selection on a tree of >= 3 files; distinct by dumped state; a tree step is non-trivial when it has inputs at >= 2 levels, >= 2 or 0 outputs, a kept file next to the outputs in the output level or next to the inputs in a lower level, or (flush) a non-empty level 0",
+        "seeded store histories (put/del/batch/flush/compaction steps/reopen; keys from a 4-12 key adversarial alphabet, ~30% tombstones, options grid memtable x file size x block size x L0 thresholds x max compaction files x gc versions x manifest rollover ratio) on the real KeyValueStore, flush and compaction loops single-stepped; after every op: reads of every key vs. sequential map and vs. the Lean model on the dumped state, invariants I1/I2 on the dumped state, closedness of each chosen compaction; the selector as a function (Lean nextCompaction vs Version::next_compaction: levels, key range, input ids in order) at every compaction step and, as is_some, on every state; selhist: selector-centred histories (options grid stall/mandatory thresholds x max_compaction_files at/below/above the stall threshold x max_compaction_bytes x max_open_files x memtable x file size) with the selection compared at every compaction step, again with one compaction in flight (asked inside the running compaction, the nested choice performed) and reads checked against a sequential map; f64: the level-curve / level-factor tables and seeded (level, score) pairs of ceil(score as f64 * level_factor) as i64; tree steps: at every performed compaction step and every flush of both kinds of history (the nested compaction of selhist and the step it is nested in included) the Lean functions applyCompaction / applyTrivialMove / ingest on the tree before (per level in the order the version holds the files), the compaction the real selector returned and the outputs read off the real tree after vs the real tree after, level by level, file by file, in the version's order, with the Boolean forms of Chosen and OutsOk evaluated on the step; oracle on the ids alone: after = before - inputs + outputs level by level as multisets, an output carrying an input's id was added by the step's manifest edit (store histories), every level >= 1 after sorted by key with at most touching ranges; non-trivial = a read step at which some key has versions in >= 2 components, or a selection on a tree of >= 3 files; distinct by dumped state; a tree step is non-trivial when it has inputs at >= 2 levels, >= 2 or 0 outputs, a kept file next to the outputs in the output level or next to the inputs in a lower level, or (flush) a non-empty level 0; history model: at every put / del / batch, every refused batch (tried next to every batch), every memtable rotation and every flush the Lean function Blue.StoreHist.apply on the state before (memtable, immutable memtable, seq_no, visible_seq_no, level 0) vs the state after (one pass of the flush loop = rollover up to the state seen at flush.rotated, then flush: new file's key range, newest timestamp and versions, level 0 in search order); oracle on the dumps alone (fresh timestamp, batch in the memtable and visible, nothing lost or moved, flushed file searched first); a history step is non-trivial when it is a batch of >= 2 keys, writes a key the memtable already holds, is a refused batch, rotates >= 2 versions or flushes into a non-empty level 0; GC obligations: every performed compaction into the last level carries the tombstones of its inputs, the model evaluates newestKeptB and outputs-subset-of-inputs, the oracle evaluates both on the entries directly",
         &[],
     );
 }
